@@ -29,7 +29,8 @@ def work(case):
     texts = engine_run.texts_of(data)
     edits = case.get("edits")
     if edits is None:
-        edits = editgen.gen_batch(rng, case["doc"], texts, 1, KINDS)
+        edits = editgen.gen_para_end_extend(rng, case["doc"], texts) if rng.random() < 0.2 else []
+        edits = edits or editgen.gen_batch(rng, case["doc"], texts, 1, KINDS)
         for e in edits:
             e["locatable"] = True
             if e["kind"] == "literal":
